@@ -135,6 +135,9 @@ func C08(t *rapid.T) *world.Scenario {
 	if Pct(t, "latefamily", 12) {
 		return c08Late304(t, sc, u)
 	}
+	if Pct(t, "gridfamily", 10) {
+		return c08Grid(t, sc, u)
+	}
 	withVary := Pct(t, "vary", 50)
 	n := rapid.IntRange(3, 10).Draw(t, "steps")
 	lifeNow := int64(10)
@@ -234,6 +237,40 @@ func C08(t *rapid.T) *world.Scenario {
 			bg := *rq.Cond
 			bg.LatencyNs = Pick(t, lbl+"-bglatn", int64(1), 2, 3) * Sec
 			rq.Bg = &bg
+		}
+		sc.Steps = append(sc.Steps, ReqStep(rq))
+	}
+	return sc
+}
+
+// c08Grid: requests on a 2x2 grid over two nominated fields while the origin's Vary moves
+// between them, so that variants with different field sets coexist, are freshened at different
+// times and are replaced by full replies (in the foreground and under stale-while-revalidate)
+// whose Vary has moved again.
+func c08Grid(t *rapid.T, sc *world.Scenario, u string) *world.Scenario {
+	n := rapid.IntRange(4, 9).Draw(t, "gsteps")
+	for i := 0; i < n; i++ {
+		lbl := "g" + itoa(int64(i))
+		if i > 0 && Pct(t, lbl+"-sleep", 40) {
+			sc.Steps = append(sc.Steps, SleepStep(Pick(t, lbl+"-dur", int64(1), 2, 6, 11)))
+			continue
+		}
+		rq := &world.Req{Method: "GET", URL: u, Header: [][2]string{H("X-A", Pick(t, lbl+"-xa", "1", "2")), H("X-B", Pick(t, lbl+"-xb", "x", "y"))}}
+		life := Pick(t, lbl+"-life", int64(1), 5, 10)
+		cc := "max-age=" + itoa(life)
+		if Pct(t, lbl+"-swr", 60) {
+			cc += ", stale-while-revalidate=3600"
+		}
+		mk := func(l string) world.Reply {
+			return world.Reply{Kind: "resp", Status: 200, Body: world.Body{Len: rapid.IntRange(8, 40).Draw(t, l+"-blen")},
+				Header: [][2]string{H("Date", "$T+0"), H("Cache-Control", cc), H("X-Gen", "g$S"), H("Etag", `"v$S"`), H("Vary", Pick(t, l+"-vary", "X-A", "X-B", "X-A", "X-B", "X-A, X-B"))}}
+		}
+		rq.Uncond = mk(lbl + "-u")
+		if Pct(t, lbl+"-c304", 45) {
+			rq.Cond = &world.Reply{Kind: "resp", Status: 304, Header: [][2]string{H("Date", "$T+0"), H("Cache-Control", cc), H("X-Gen", "g$S")}}
+		} else {
+			c := mk(lbl + "-c")
+			rq.Cond = &c
 		}
 		sc.Steps = append(sc.Steps, ReqStep(rq))
 	}
